@@ -208,7 +208,7 @@ func record(f, variant int, arg interface{}) (*Recorder, bool) {
 	i := r.Count[f]
 	r.Count[f]++
 	fail := i < 64 && r.Faults[f]&(1<<uint(i)) != 0
-	r.Calls = append(r.Calls, CallRec{Func: f, Variant: variant, Arg: canon(arg), Fail: fail})
+	r.Calls = append(r.Calls, CallRec{Func: f, Variant: variant, Arg: canonArg(arg), Fail: fail})
 	if i < 64 && r.Panics[f]&(1<<uint(i)) != 0 {
 		r.Panicked++
 		panic(plannedPanic{funcNames[f]})
